@@ -46,9 +46,12 @@ import (
 
 	"github.com/btcsuite/btcd/btcec/v2"
 	"github.com/btcsuite/btcd/btcutil/v2"
+	"github.com/btcsuite/btcd/wire/v2"
 	"github.com/lightningnetwork/lnd/channeldb"
 	"github.com/lightningnetwork/lnd/chanstate"
+	"github.com/lightningnetwork/lnd/fn/v2"
 	"github.com/lightningnetwork/lnd/input"
+	"github.com/lightningnetwork/lnd/lntypes"
 	"github.com/lightningnetwork/lnd/lnwire"
 )
 
@@ -136,6 +139,10 @@ type c06Node struct {
 	dead   bool // a durable write failed inside an operation of the current lc
 	ahead  bool // RevokeCurrentCommitment of the current lc failed on its write
 	borked bool
+	// stale: OpenChannel handles of this node's channel loaded EARLIER from the
+	// database (the funding manager's, the chain arbitrator's ...); secondary
+	// writers are called through them while the link's handle moves on.
+	stale []*chanstate.OpenChannel
 }
 
 type c06Case struct {
@@ -150,6 +157,8 @@ type c06Case struct {
 	// personality
 	pReconnect int // spontaneous reconnect after a step with probability 1/pReconnect (0 = never)
 	recModes   []string
+	idx        int
+	nStale     int
 }
 
 func c06Name(x int) string { return string(rune('A' + x)) }
@@ -488,6 +497,147 @@ func (c *c06Case) bork(x int, nested bool) {
 	c.stats["op_bork"]++
 }
 
+// --- secondary writers through a stale handle ------------------------------
+
+// c06Writers: every OpenChannel mutator that writes a single fact about the
+// channel through whatever handle the caller holds.  (SyncPending / the full
+// sync of channel creation legitimately write the whole handle and are only
+// used before the first update; MarkBorked is exercised by bork().)
+var c06Writers = []string{
+	"MarkRealScid", "MarkConfirmationHeight", "MarkAsOpen", "MarkScidAliasNegotiated",
+	"MarkDataLoss", "MarkCommitmentBroadcasted", "MarkCoopBroadcasted",
+	"ApplyChanStatus", "ClearChanStatus", "MarkCloseConfirmationHeight",
+	"ResetCloseConfirmationHeight", "MarkShutdownSent",
+}
+
+// snapshot keeps a handle loaded now for later use as a stale one.
+func (c *c06Case) snapshot(x int) {
+	if oc, err := c.fetch(x); err == nil {
+		c.n[x].stale = append(c.n[x].stale, oc)
+	}
+}
+
+// looksOK counts the heights v < upto whose secret the store decoded from the
+// database reproduces exactly as the peer's producer generates it.
+func (c *c06Case) looksOK(x int, upto uint64) int {
+	oc, err := c.fetch(x)
+	if err != nil || oc.RevocationStore == nil {
+		return -1
+	}
+	prod := c.n[1-x].handle.RevocationProducer
+	ok := 0
+	for v := uint64(0); v < upto; v++ {
+		want, err1 := prod.AtIndex(v)
+		got, err2 := oc.RevocationStore.LookUp(v)
+		if err1 == nil && err2 == nil && *want == *got {
+			ok++
+		}
+	}
+	return ok
+}
+
+// staleWrite calls one secondary writer of node x through one of its stale
+// handles and logs the durable state re-read from the database afterwards.
+func (c *c06Case) staleWrite(x int, late bool) {
+	n := c.n[x]
+	if len(n.stale) == 0 || n.borked {
+		return
+	}
+	h := n.stale[0]
+	if c.nStale > 0 && c.r.Intn(2) == 0 {
+		h = n.stale[c.r.Intn(len(n.stale))]
+	}
+	w := c06Writers[(c.idx+c.nStale*5)%len(c06Writers)]
+	if c.nStale > 1 {
+		w = c06Writers[c.r.Intn(len(c06Writers))]
+	}
+	if h.IsZeroConf() && c.nStale == 0 {
+		// the funding transaction of a zero-conf channel confirms after the
+		// channel has already been updated
+		w = "MarkRealScid"
+	}
+	switch w {
+	case "MarkDataLoss", "MarkCommitmentBroadcasted", "MarkCoopBroadcasted", "ApplyChanStatus":
+		// these end the useful life of the channel: mostly towards the end of a case
+		if !late && c.r.Intn(5) != 0 {
+			w = []string{"MarkConfirmationHeight", "MarkAsOpen", "MarkScidAliasNegotiated",
+				"ClearChanStatus", "MarkCloseConfirmationHeight", "MarkShutdownSent"}[c.r.Intn(6)]
+		}
+	}
+	if w == "MarkRealScid" && !h.IsZeroConf() {
+		w = "MarkConfirmationHeight"
+	}
+	c.nStale++
+	rdurBefore := uint64(0)
+	if oc, err := c.fetch(x); err == nil {
+		rdurBefore = oc.RemoteCommitment.CommitHeight
+	}
+	rawBefore := c06RawRevState(n)
+	var (
+		err error
+		pan bool
+	)
+	func() {
+		defer func() {
+			if r := recover(); r != nil {
+				pan = true
+			}
+		}()
+		scid := lnwire.NewShortChanIDFromInt(uint64(700000+c.nStale) << 40)
+		switch w {
+		case "MarkRealScid":
+			err = h.MarkRealScid(scid)
+		case "MarkConfirmationHeight":
+			err = h.MarkConfirmationHeight(uint32(100 + c.nStale))
+		case "MarkAsOpen":
+			err = h.MarkAsOpen(h.ShortChannelID)
+		case "MarkScidAliasNegotiated":
+			err = h.MarkScidAliasNegotiated()
+		case "MarkDataLoss":
+			s, _ := c.n[1-x].handle.RevocationProducer.AtIndex(40)
+			err = h.MarkDataLoss(input.ComputeCommitmentPoint(s[:]))
+		case "MarkCommitmentBroadcasted":
+			err = h.MarkCommitmentBroadcasted(wire.NewMsgTx(2), lntypes.Local)
+		case "MarkCoopBroadcasted":
+			err = h.MarkCoopBroadcasted(wire.NewMsgTx(2), lntypes.Local)
+		case "ApplyChanStatus":
+			err = h.ApplyChanStatus(channeldb.ChanStatusLocalDataLoss)
+		case "ClearChanStatus":
+			err = h.ClearChanStatus(channeldb.ChanStatusLocalDataLoss)
+		case "MarkCloseConfirmationHeight":
+			err = h.MarkCloseConfirmationHeight(fn.Some(uint32(200 + c.nStale)))
+		case "ResetCloseConfirmationHeight":
+			err = h.ResetCloseConfirmationHeight()
+		case "MarkShutdownSent":
+			err = h.MarkShutdownSent(chanstate.NewShutdownInfo(nil, true))
+		}
+	}()
+	res := c06ErrClass(err)
+	if pan {
+		res = "panic"
+	}
+	same := 0
+	if bytes.Equal(rawBefore, c06RawRevState(n)) {
+		same = 1
+	}
+	// the O line carries the durable state as re-read from the database NOW
+	c.emit("O %s stalewrite w=%s hage=%d rev_same=%d look_want=%d look_ok=%d => %s fail=- %s\n",
+		c06Name(x), w, h.LocalCommitment.CommitHeight, same, rdurBefore,
+		c.looksOK(x, rdurBefore), res, c.view(x))
+	c.stats["stale_"+w]++
+	switch w {
+	case "MarkDataLoss", "MarkCommitmentBroadcasted", "MarkCoopBroadcasted", "ApplyChanStatus":
+		// any non-default status makes the store refuse every further commitment
+		// write (isChannelBorked): same consequences as bork()
+		if res == "ok" {
+			n.borked = true
+		}
+	}
+	if res != "ok" {
+		c.stats["stale_res_"+res]++
+	}
+}
+
 // --- reconnect ---------------------------------------------------------------
 
 func (c *c06Case) rebuild(x int, mode string) bool {
@@ -687,6 +837,12 @@ func (c *c06Case) pump() {
 			c.recoverFrom(p.x)
 			continue
 		}
+		if c.r.Intn(14) == 0 {
+			c.staleWrite(c.r.Intn(2), false)
+		}
+		if c.r.Intn(12) == 0 {
+			c.snapshot(c.r.Intn(2))
+		}
 		if c.pReconnect > 0 && c.r.Intn(c.pReconnect) == 0 {
 			c.reconnect([2]string{
 				[]string{"handle", "disk"}[c.r.Intn(2)],
@@ -710,13 +866,16 @@ func c06RunCase(t *testing.T, w *bufio.Writer, id string, seed int64, idx int,
 		channeldb.SingleFunderTweaklessBit | channeldb.AnchorOutputsBit |
 			channeldb.ZeroHtlcTxFeeBit,
 		channeldb.SingleFunderBit,
+		// zero-conf: the only kind that is updated before MarkRealScid runs
+		channeldb.SingleFunderTweaklessBit | channeldb.ZeroConfBit |
+			channeldb.ScidAliasFeatureBit,
 	}
 	ct := types[idx%len(types)]
 	a, b, err := CreateTestChannels(t, ct)
 	if err != nil {
 		t.Fatalf("create channels: %v", err)
 	}
-	c := &c06Case{t: t, w: w, r: r, stats: stats}
+	c := &c06Case{t: t, w: w, r: r, stats: stats, idx: idx}
 	for x, lc := range []*LightningChannel{a, b} {
 		fs := &c06Store{Store: lc.channelState.Db, calls: map[string]int{}}
 		c.n[x] = &c06Node{
@@ -726,6 +885,8 @@ func c06RunCase(t *testing.T, w *bufio.Writer, id string, seed int64, idx int,
 		lc.channelState.Db = fs
 		x := x
 		fs.borkFn = func() { c.bork(x, true) }
+		// the handle another subsystem loaded when the channel was created
+		c.snapshot(x)
 	}
 
 	// fault plan: the structured part walks (method, n-th call, node); the rest is random.
@@ -807,6 +968,10 @@ func c06RunCase(t *testing.T, w *bufio.Writer, id string, seed int64, idx int,
 			c.add(1 - x)
 		}
 		c.pump()
+		// a secondary writer through a handle loaded earlier, at a quiescent point
+		if !c.stop && (rd == 0 || r.Intn(2) == 0) {
+			c.staleWrite((idx+rd)%2, rd == rounds-1)
+		}
 	}
 	if !c.stop {
 		// final reconnect from disk: whatever is retransmitted must obey the rule too
